@@ -130,12 +130,15 @@ def run(facts, res):
                           "array in conflict the merged order is then never stored and the elements of the sealed leaves disappear", b.loc())
 
     # ------------------------------------------------------------------ V3
-    adds = [s for s in cg.sites[b.path] if s.callee is not None and s.callee.name == "add" and "RevisionTree" in s.callee.path]
+    adds = [s_ for s_ in inlined_sites(facts, b, lambda t: t.callee.name == "add" and "RevisionTree" in t.callee.path) if s_.via == ()]
     res.floor("V3", "sealing add() in resolve_as", len(adds), 1)
     for s in adds:
-        rev = arg_term(b, s.term, 1, 30)
-        par = arg_term(b, s.term, 2, 30)
-        stg = arg_term(b, s.term, 3, 6)
+        sb = s.body                       # resolve_as itself, or the closure of `losers.into_iter().for_each(|r| ..)`
+        rev = s.args[1] if len(s.args) > 1 else ("cut",)
+        par = s.args[2] if len(s.args) > 2 else ("cut",)
+        stg = s.args[3] if len(s.args) > 3 else ("cut",)
+        while stg[0] == "var":
+            stg = stg[3]
         nr = [x for x in walk(rev) if x[0] == "call" and callee_name(x) == "new_resolved"]
         def root_vars(t_):
             """the named variable(s) a value is a view / copy of (not the variables its definition mentions further down)"""
@@ -143,6 +146,8 @@ def run(facts, res):
             while stack_:
                 y = stack_.pop()
                 y = peel(y, stop_var=True)
+                if y[0] == "param" and sb.kind == "closure":
+                    out_.add(("param", y[1]))         # the element a for_each closure is applied to
                 if y[0] == "var":
                     out_.add(y[1])
                     # a plain rebinding (`let leaf = r;`, `let p = r.clone();`) names the same value
@@ -161,7 +166,20 @@ def run(facts, res):
         # iteration over the whole leaf set
         whole = False
         ne = False
-        for x in walk(par):
+        if sb.kind == "closure" and s.outer_body is b:
+            # closure form: the chain the closure is applied to
+            ct_ = b.blocks[s.outer_block].term
+            if ct_.callee is not None and ct_.callee.name in ("for_each", "try_for_each") and ct_.args:
+                chain = arg_term(b, ct_, 0, 40)
+                names = [callee_name(c) for c in walk(chain) if c[0] == "call"]
+                if "get_leafs" in names and not (set(names) & (PARTIAL_ADAPTERS - {"filter"})) and \
+                        ("filter" not in names or _filters_reject_only_equal(facts, chain)):
+                    whole = True
+                    for l in s.lits:
+                        if l.kind == "call" and callee_name(l.term) in ("ne", "eq") and l.truth == (callee_name(l.term) == "ne") and \
+                                any(contains_call(y, "get_winner") for y in l.term[2][:2]):
+                            ne = True
+        for x in (walk(par) if sb is b else []):
             if x[0] == "call" and callee_name(x) == "next":
                 chain = x[2][0]
                 names = [callee_name(c) for c in walk(chain) if c[0] == "call"]
@@ -176,7 +194,7 @@ def run(facts, res):
                                 any(contains_call(y, "get_winner") for y in l.term[2][:2]):
                             ne = True
         # under leaf != winner where winner = get_winner() of the tree
-        for l in lits_of(b, s.block, facts):
+        for l in (lits_of(b, s.block, facts) if sb is b else []):
             if l.kind == "call" and callee_name(l.term) in ("ne", "eq") and l.truth == (callee_name(l.term) == "ne"):
                 a0, a1 = l.term[2][0], l.term[2][1]
                 for x, y in ((a0, a1), (a1, a0)):
